@@ -62,6 +62,7 @@ def applyOp (stamp : Bytes) (written : List Bytes) : NameOp → Bytes → Bytes
   | .replaceAll o n, f => f.flatMap (fun b => if b == o then n else [b])
   | .append s, f => f ++ s
   | .unique, f => uniq written f
+  | .mark, f => f
 
 def applyOps (stamp : Bytes) (written : List Bytes) : List NameOp → Bytes → Bytes
   | [], f => f
@@ -70,6 +71,12 @@ def applyOps (stamp : Bytes) (written : List Bytes) : List NameOp → Bytes → 
 /-- the file an item named `name` is written to, when the dump has already written `written` and the clock reads `stamp` -/
 def fileName (ops : List NameOp) (stamp : Bytes) (written : List Bytes) (name : Bytes) : Bytes :=
   applyOps stamp written ops name
+
+/-- the value of `fileName` when `delete(allFiles, fileName)` runs: the name the stale-file cleanup will keep -/
+def markAt (stamp : Bytes) (written : List Bytes) : List NameOp → Bytes → Option Bytes
+  | [], _ => none
+  | .mark :: _, f => some f
+  | op :: r, f => markAt stamp written r (applyOp stamp written op f)
 
 /-! ## the file system -/
 
@@ -87,23 +94,24 @@ def usable (n : Bytes) : Bool :=
 /-- `WriteFileSafety`: the file is replaced or created -/
 def write (d : Dir) (n : Bytes) (b : Body) : Dir := (n, b) :: d.filter (fun f => f.1 != n)
 
-/-- the item loop of `MarshalJSON`: `written` (newest first) are the names of this dump — also what
-`delete(allFiles, fileName)` has removed from the set of files found at the start; `clock i` is the reading of the clock
-when item `i` is reached -/
+/-- the item loop of `MarshalJSON`: `written` (newest first) are the names of this dump (what `uniqueFileName` consults),
+`kept` the names `delete(allFiles, fileName)` has removed from the set of files found at the start — the two differ when
+the mark is not taken on the final name; `clock i` is the reading of the clock when item `i` is reached -/
 def dumpLoop {α : Type} (ops : List NameOp) (enc : α → Json) (nameOf : α → Bytes) (clock : Nat → Bytes) :
-    Nat → List α → Dir → List Bytes → Option (Dir × List Bytes)
-  | _, [], d, written => some (d, written)
-  | i, c :: r, d, written =>
+    Nat → List α → Dir → List Bytes → List Bytes → Option (Dir × List Bytes × List Bytes)
+  | _, [], d, written, kept => some (d, written, kept)
+  | i, c :: r, d, written, kept =>
     let n := fileName ops (clock i) written (nameOf c)
-    if usable n then dumpLoop ops enc nameOf clock (i + 1) r (write d n (.doc (enc c))) (n :: written) else none
+    let kept' := (match markAt (clock i) written ops (nameOf c) with | some m => m :: kept | none => kept)
+    if usable n then dumpLoop ops enc nameOf clock (i + 1) r (write d n (.doc (enc c))) (n :: written) kept' else none
 
-/-- `MarshalJSON` in directory mode: write every item, then remove the files found at the start that were not written -/
+/-- `MarshalJSON` in directory mode: write every item, then remove the files found at the start that were not marked -/
 def marshalDynamic {α : Type} (ops : List NameOp) (enc : α → Json) (nameOf : α → Bytes) (clock : Nat → Bytes)
     (d : Dir) (cs : List α) : Option Dir :=
-  match dumpLoop ops enc nameOf clock 0 cs d [] with
+  match dumpLoop ops enc nameOf clock 0 cs d [] [] with
   | none => none
-  | some (d', written) =>
-    let stale := (d.map (·.1)).filter (fun n => !written.contains n)
+  | some (d', _, kept) =>
+    let stale := (d.map (·.1)).filter (fun n => !kept.contains n)
     some (d'.filter (fun f => !stale.contains f.1))
 
 /-- a sequence of dumps of the same items into the same directory (one clock per dump) -/
@@ -161,13 +169,14 @@ abbrev noSep (clean : Bool) (ops : List NameOp) : Bool := noByte 47 clean ops
 /-- no NUL byte is left -/
 abbrev noNul (clean : Bool) (ops : List NameOp) : Bool := noByte 0 clean ops
 
-/-- the operations end with `+ ext` followed by `uniqueFileName`, where `ext` is the extension the loader reads; every
+/-- the operations end with `+ ext` followed by `uniqueFileName` and then the in-use mark (taken on the FINAL name, and
+only there), where `ext` is the extension the loader reads; every
 separator and every NUL byte (the two bytes a Linux file name cannot contain) is replaced before, whatever the name
 holds; the separator of `uniqueFileName` is harmless -/
 def opsOK (ops : List NameOp) (readExt : Bytes) : Bool :=
   match ops.reverse with
-  | .unique :: .append e :: pre =>
-    e == readExt && isExt e && noSep false pre.reverse && noNul false pre.reverse &&
+  | .mark :: .unique :: .append e :: pre =>
+    pre.all (· != .mark) && e == readExt && isExt e && noSep false pre.reverse && noNul false pre.reverse &&
       !Gen.ConfigDir.uniqueSep.contains 47 && !Gen.ConfigDir.uniqueSep.contains 0
   | _ => false
 
